@@ -452,7 +452,7 @@ def bld_cases(ctx, n, flags_choices, ws=(1, 2, 3), ls=(1, 2, 3), lens=(8, 14, 20
         # K (a service call that panics) needs the plain-Tokio start-up: only there the worker threads carry their index in their name
         reqs.append("seed=%d;W=%d;L=%d;B=%s;S=%s;len=%d;flags=%s" % (
             ctx.rng.randrange(10 ** 9), ctx.rng.choice(ws), ctx.rng.choice(ls), ctx.rng.choice(BLD_CHAINS),
-            "t" if ("k" in fl or "x" in fl) else ctx.rng.choice("at"), ctx.rng.choice(lens), fl))
+            "t" if ("k" in fl or "x" in fl or "d" in fl) else ctx.rng.choice("at"), ctx.rng.choice(lens), fl))
     p = subprocess.run([DRIVER, "bldgen"], input="\n".join(reqs) + "\n", stdout=subprocess.PIPE, text=True, timeout=600)
     raw = [l for l in p.stdout.split("\n") if l]
     assert len(raw) == len(reqs) and not any(l.startswith("DRIVER_ERROR") for l in raw), "bldgen failed: %s" % raw[:2]
@@ -563,7 +563,9 @@ def bld_pred(which):
                 continue
             if not op:
                 continue
-            if op[0] in "KJ":
+            if op == "D":
+                faulted = True
+            elif op[0] in "KJ":
                 cid += 1
                 faulted = True
                 tok_of[cid] = int(op[1:].split(":")[0])
@@ -620,7 +622,7 @@ def bld_pred(which):
             # are dispatched one at a time while no worker is at its limit go to W distinct workers (the order of the rotation may
             # have changed with the replacement, its period has not)
             if ("C04" in which or "C08" in which) and W >= 2 and L > 1:
-                if op and op[0] in "KJE" or blocked or paused or len(served) > 1 or any(a >= L for a in act[:W]) or len(act) < W:
+                if op and op[0] in "KJED" or blocked or paused or len(served) > 1 or any(a >= L for a in act[:W]) or len(act) < W:
                     rot = []
                 elif len(served) == 1 and op[0] == "c":
                     rot.append(served[0][2])
@@ -637,7 +639,7 @@ def bld_pred(which):
             # service instances are created after start-up only to replace a service whose readiness check failed (that service alone,
             # from its own factory, once) or for a replacement worker (ops K / J)
             info = getattr(notes, "info", None)
-            if "C07" in which and op and op[0] not in "KJ" and not faulted and not model:
+            if "C07" in which and op and op[0] not in "KJD" and not faulted and not model:
                 new = (info or {}).get("new", {})
                 if armed_call is not None and (op[0] in "XY" or (op == "b")):
                     if new != {armed_call: armed_n}:
@@ -676,7 +678,7 @@ def bld_probe(case, impl_trace, model_trace):
     server running each of them must then be served (clause C03/C05 of bld_pred) by the right service (C01), within the limit (C02)."""
     W, L, tok_call, ops = bld_parse_case(case)
     steps = bld_parse_trace(impl_trace)
-    if not steps or not ops or ops[-1][0] in "GH" or any(o[0] in "KJ" for o in ops):
+    if not steps or not ops or ops[-1][0] in "GH" or any(o[0] in "KJD" for o in ops):
         return []
     served, closed, paused, cid = set(), set(), False, 0
     for o in ops:
